@@ -180,26 +180,40 @@ class Folder:
                     d[f(k)] = f(v)
             return d
         if isinstance(expr, (ast.DictComp, ast.SetComp, ast.ListComp, ast.GeneratorExp)):
-            if len(expr.generators) != 1:
-                raise NotConst("nested comprehension")
-            g = expr.generators[0]
-            if g.is_async or not isinstance(g.target, ast.Name):
-                raise NotConst("comprehension target")
-            it = f(g.iter)
-            if not isinstance(it, (set, frozenset, list, tuple, range, str)):
-                raise NotConst("comprehension iter")
-            items = sorted(it) if isinstance(it, (set, frozenset)) else list(it)
+            if not 1 <= len(expr.generators) <= 3 or any(g_.is_async for g_ in expr.generators):
+                raise NotConst("comprehension shape")
             res_l = []
             res_d: Dict[Any, Any] = {}
-            for x in items:
-                e2 = dict(env)
-                e2[g.target.id] = x
-                if not all(self.fold(mod, c, e2, depth + 1) for c in g.ifs):
-                    continue
-                if isinstance(expr, ast.DictComp):
-                    res_d[self.fold(mod, expr.key, e2, depth + 1)] = self.fold(mod, expr.value, e2, depth + 1)
+
+            def bind_target(t, x, e2):
+                if isinstance(t, ast.Name):
+                    e2[t.id] = x
+                elif isinstance(t, (ast.Tuple, ast.List)) and isinstance(x, (tuple, list)) and len(t.elts) == len(x) and not any(isinstance(y, ast.Starred) for y in t.elts):
+                    for ty, xy in zip(t.elts, x):
+                        bind_target(ty, xy, e2)
                 else:
-                    res_l.append(self.fold(mod, expr.elt, e2, depth + 1))
+                    raise NotConst("comprehension target")
+
+            def rounds(k: int, env_k) -> None:
+                """the k-th `for` clause, nested inside the earlier ones (their targets are visible to its iterable and conditions)"""
+                if k == len(expr.generators):
+                    if isinstance(expr, ast.DictComp):
+                        res_d[self.fold(mod, expr.key, env_k, depth + 1)] = self.fold(mod, expr.value, env_k, depth + 1)
+                    else:
+                        res_l.append(self.fold(mod, expr.elt, env_k, depth + 1))
+                    return
+                g = expr.generators[k]
+                it = self.fold(mod, g.iter, env_k, depth + 1)
+                if not isinstance(it, (set, frozenset, list, tuple, range, str)):
+                    raise NotConst("comprehension iter")
+                items = sorted(it) if isinstance(it, (set, frozenset)) else list(it)
+                for x in items:
+                    e2 = dict(env_k)
+                    bind_target(g.target, x, e2)
+                    if all(self.fold(mod, c, e2, depth + 1) for c in g.ifs):
+                        rounds(k + 1, e2)
+
+            rounds(0, dict(env))
             if isinstance(expr, ast.DictComp):
                 return res_d
             if isinstance(expr, ast.SetComp):
